@@ -113,6 +113,9 @@ pub struct Stats {
     pub known_hit_sigs: Mutex<BTreeMap<String, u64>>,
 }
 
+/// at most this many distinct non-trivial case hashes are remembered
+pub const DISTINCT_CAP: usize = 6_000_000;
+
 impl Stats {
     pub fn record(&self, hash: u64, info: &CaseInfo, sample: impl FnOnce() -> Value) {
         self.evaluations.fetch_add(1, Ordering::Relaxed);
@@ -123,7 +126,11 @@ impl Stats {
             }
         }
         if info.nontrivial {
-            let fresh = self.nontrivial_hashes.lock().unwrap().insert(hash);
+            // the set of distinct hashes is capped (memory): beyond the cap the count is a lower bound
+            let fresh = {
+                let mut set = self.nontrivial_hashes.lock().unwrap();
+                if set.len() >= DISTINCT_CAP { false } else { set.insert(hash) }
+            };
             if fresh {
                 let mut samples = self.samples.lock().unwrap();
                 if samples.len() < 5 {
@@ -514,6 +521,9 @@ fn write_evidence<C: Check>(check: &C, tier: Tier, seed: u64, stats: &Stats, vio
         "distinct_nontrivial".into(),
         json!(stats.nontrivial_hashes.lock().unwrap().len()),
     );
+    if stats.nontrivial_hashes.lock().unwrap().len() >= DISTINCT_CAP {
+        coverage.insert("distinct_nontrivial_is_lower_bound".into(), json!(true));
+    }
     coverage.insert("rule".into(), json!(check.rule()));
     coverage.insert("samples".into(), Value::Array(stats.samples.lock().unwrap().clone()));
     coverage.insert("classes".into(), json!(*stats.classes.lock().unwrap()));
